@@ -43,7 +43,8 @@ fn step_strat() -> impl Strategy<Value = Step> {
 	prop_oneof![
 		6 => (sel_strat(), prop_oneof![0u8..3, 0u8..7, Just(4u8), Just(5u8)]).prop_map(|(sel, empty)| Step::Mine { sel, empty }),
 		2 => (any::<u16>(), -4i8..9).prop_map(|(which, delta)| Step::ToExpiry { which, delta }),
-		5 => (prop_oneof![1u8..=6, 1u8..=3, Just(5u8), Just(6u8)], proptest::collection::vec(fate_strat(), 1..4), 1u8..=2).prop_map(|(depth, fates, extra)| Step::Fork { depth, fates, extra }),
+		3 => (prop_oneof![1u8..=6, 1u8..=3, Just(5u8), Just(6u8)], proptest::collection::vec(fate_strat(), 1..4), 1u8..=2).prop_map(|(depth, fates, extra)| Step::Fork { depth, fates, extra }),
+		5 => (prop_oneof![4 => Just(0i8), 2 => Just(1i8), 2 => Just(-1i8)], proptest::collection::vec(fate_strat(), 1..4), 1u8..=2).prop_map(|(adj, fates, extra)| Step::ForkTx { adj, fates, extra }),
 		2 => any::<u16>().prop_map(|pay| Step::Claim { pay }),
 	]
 }
